@@ -187,7 +187,9 @@ func encryptedKeyEl(parent *etree.Element, e EncSpec, sym []byte) *etree.Element
 	}
 	ek := xe(parent, "EncryptedKey")
 	em := xe(ek, "EncryptionMethod")
-	em.CreateAttr("Algorithm", keyAlg)
+	if keyAlg != "-" {
+		em.CreateAttr("Algorithm", keyAlg)
+	}
 	if e.Digest != "" {
 		dm := dsEl(em, "DigestMethod")
 		dm.CreateAttr("Algorithm", e.Digest)
@@ -219,6 +221,9 @@ func EncryptedAssertionEl(e EncSpec, sym []byte, cipherValue []byte) *etree.Elem
 	ea.CreateAttr("xmlns:ds", NSDS)
 	ed := xe(ea, "EncryptedData")
 	ed.CreateAttr("Type", "http://www.w3.org/2001/04/xmlenc#Element")
+	if dataAlg == "-" {
+		dataAlg = ""
+	}
 	xe(ed, "EncryptionMethod").CreateAttr("Algorithm", dataAlg)
 	switch e.Placement {
 	case "":
@@ -381,4 +386,16 @@ func DecryptEA(ea *etree.Element, keyName string) []byte {
 		return out[:len(out)-n]
 	}
 	return nil
+}
+
+// RawCBC returns IV || AES-CBC(raw) with no padding added (len(raw) must be a multiple of 16).
+func RawCBC(key, iv, raw []byte) []byte {
+	blk, err := aes.NewCipher(key)
+	if err != nil {
+		panic(err)
+	}
+	out := make([]byte, 16+len(raw))
+	copy(out, iv[:16])
+	cipher.NewCBCEncrypter(blk, iv[:16]).CryptBlocks(out[16:], raw)
+	return out
 }
